@@ -601,6 +601,12 @@ def bitop(op, a, b):
 def shift(op, a, k, bits=None):
     if a[0] == 'int' and k[0] == 'int':
         return I(a[1] << k[1]) if op == 'shl' else I(a[1] >> k[1])
+    if op == 'shl' and k[0] == 'int' and a[0] == 'shr' and a[2] == k:
+        # (x >> n) << n clears the low n bits of an unsigned x: x & ~(2^n - 1)
+        x = a[1]
+        w = 8 if is_byte(x) else {'u8': 8, 'u16': 16, 'u32': 32, 'u64': 64, 'usize': 64}.get(TYPES.get(x))
+        if w is not None and 0 <= k[1] < w:
+            return bitop('band', x, I(((1 << w) - 1) & ~((1 << k[1]) - 1)))
     return (op, a, k)
 
 
